@@ -37,6 +37,11 @@ BIG = 2**53
 
 def gen_text(rng):
     r = rng.random()
+    if rng.random() < 0.012:
+        # long values: beyond 255 / 4096 / the 8 KiB I/O buffers / 64 KiB
+        n = rng.choice([256, 300, 4097, 8193, 70000])
+        unit = rng.choice(["x", "ab,", "\u00e9", 'q"', "line\n", " "])
+        return (unit * (n // len(unit) + 1))[:n]
     if r < 0.35:
         return rng.choice(NASTY)
     if r < 0.55:
@@ -58,7 +63,7 @@ def gen_field_value(rng, exotic):
             if f == f:  # no NaN
                 return f
     if r < 0.45:
-        return rng.choice([0.0, -0.0, float("inf"), float("-inf"), 5e-324, -5e-324, 2.2250738585072014e-308, 1.7976931348623157e308, 0.1, 1e16, 1e-7, 123456789.123456789])
+        return rng.choice([0.0, -0.0, float("inf"), float("-inf"), 5e-324, -5e-324, 2.2250738585072014e-308, 1.7976931348623157e308, 0.1, 1e16, 1e-7, 123456789.123456789, 1e22, 1e-5, 1e15, 1e17, 123456789012345680.0, 9007199254740993.0, 0.1 + 0.2, 5e-5, 1.0, 100.0, -3.0, 1e100, 2.5e-300])
     if r < 0.8:
         return rng.choice([0, 1, -1, 7, -40, 2**31, -(2**31) - 1, 10**15, BIG, -BIG, BIG - 1])
     if exotic:
@@ -77,15 +82,22 @@ def gen_mpoint(rng, exotic):
         m = gen_text(rng)
         if not exotic and m == "":
             m = "x"
+    many = rng.random() < 0.01  # points with dozens of tags / fields
     tags = {}
-    for _ in range(rng.choice([0, 1, 1, 2, 3])):
+    for i in range(rng.choice([17, 40, 120]) if many else rng.choice([0, 1, 1, 2, 3])):
         v = None if rng.random() < 0.15 else gen_text(rng)
         if not exotic and v == "_none":
             v = "_none_"
-        tags[gen_text(rng)] = v
+        tags[gen_text(rng) + (str(i) if many else "")] = v
     fields = {}
-    for _ in range(rng.choice([0, 1, 1, 2, 3])):
-        fields[gen_text(rng)] = gen_field_value(rng, exotic)
+    for i in range(rng.choice([17, 40, 120]) if many else rng.choice([0, 1, 1, 2, 3])):
+        fields[gen_text(rng) + (str(i) if many else "")] = gen_field_value(rng, exotic)
+    if rng.random() < 0.05 and tags:
+        # the same key as tag and as field; keys differing only in case / trailing blank
+        k = next(iter(tags))
+        fields[k] = gen_field_value(rng, exotic)
+        tags[k.upper()] = "U"
+        tags[k + " "] = "trailing blank"
     return MPoint(t, m, tags, fields)
 
 
